@@ -779,15 +779,18 @@ class FuncGen:
         self.gtypes = gtypes            # [(type, mutable)]
         self.has_mem = has_mem
         self.table_sigs = table_sigs    # [(table slot, funcidx)]
+        self.reserved = set()
         self.labels = []                # innermost first: arity type or None (loops: None = branch carries nothing)
         self.budget = rng.randrange(25, 90)
 
     def new_local(self, t):
+        """a local reserved for a loop counter: never read or written by generated statements"""
         self.locals.append(t)
+        self.reserved.add(len(self.locals) - 1)
         return len(self.locals) - 1
 
     def locals_of(self, t):
-        return [k for k, lt in enumerate(self.locals) if lt == t]
+        return [k for k, lt in enumerate(self.locals) if lt == t and k not in self.reserved]
 
     # ---- expressions --------------------------------------------------------------------
     def const(self, t):
@@ -956,7 +959,7 @@ class FuncGen:
         d = max(depth - 1, 0)
         r = rng.random()
         if depth <= 0 or self.budget <= 0 or r < 0.30:
-            k = rng.randrange(len(self.locals))
+            k = rng.choice([k for k in range(len(self.locals)) if k not in self.reserved])
             return self.expr(self.locals[k], min(depth, 2)) + [["local.set", k]]
         if r < 0.38:
             gs = [k for k, (_t, m) in enumerate(self.gtypes) if m]
